@@ -196,4 +196,13 @@ func stallSciTokens(c *Ctx, mat *stallMaterial, seen map[string]int) {
 		b.Close()
 		ml.close()
 	}
+	// say it in the evidence, not only in DESIGN §5/§7: when no run got as far as the issuer request the
+	// clause "a handshake blocked on the token issuer returns when its context fires" had NO dynamic
+	// coverage in this run (two cedar ends cannot complete the SSL exchange SCITOKENS rides on, so the
+	// server never asks the issuer); it then rests on the fact table no_contextless_blocking alone
+	if c.Res.Distribution["scitokens:issuer-reached"] == 0 {
+		c.Count("clause-without-dynamic-coverage:scitokens-issuer-stall")
+		c.Res.Notes = append(c.Res.Notes, fmt.Sprintf("NOT EXERCISED DYNAMICALLY: SCITOKENS issuer stall — %d of %d scripted runs reached the issuer request (cedar<->cedar SSL cannot complete, the server handshake ends before contacting the issuer); the clause is covered only statically, by the translator fact table behind theorem no_contextless_blocking (DESIGN §5 F-C19-scitokens-noctx, §7 mut-scitokens-verify-without-context)",
+			c.Res.Distribution["scitokens:issuer-reached"], c.Res.Distribution["scitokens:issuer-reached"]+c.Res.Distribution["scitokens:issuer-not-reached"]))
+	}
 }
